@@ -61,13 +61,16 @@ def known_findings():
 
 
 def run_program(ctx, spec, prog):
-    """level G: one corpus program -> scratch module -> gosym -> verdicts."""
-    d = os.path.join(ctx.work, prog["name"])
+    """level G: one corpus program (or differential variant) -> scratch module -> gosym -> verdicts."""
+    d = os.path.join(ctx.work, re.sub(r"[^A-Za-z0-9_-]+", "_", prog["name"]))
     t0 = time.time()
     bounds = spec.get("bounds", {}).get(ctx.tier, {})
     kl, km = bounds.get("KL", 2), bounds.get("KM", 2)
-    cmd = [os.path.join(VERIF, "bin/corpus"), "build", "-program", prog["name"], "-plugin", ctx.plugin, "-out", d,
-           "-kl", str(kl), "-km", str(km), "-families", ",".join(spec["families"])]
+    if prog.get("variant"):
+        cmd = [os.path.join(VERIF, "bin/corpus"), "build", "-variant", prog["name"], "-plugin", ctx.plugin, "-out", d, "-kl", str(kl), "-km", str(km)]
+    else:
+        cmd = [os.path.join(VERIF, "bin/corpus"), "build", "-program", prog["name"], "-plugin", ctx.plugin, "-out", d,
+               "-kl", str(kl), "-km", str(km), "-families", ",".join(spec["families"])]
     known = [k for k in known_findings() if k.get("status") == "known" and k["property"] == ctx.prop]
     if known:
         kf = os.path.join(ctx.work, "known.json")
@@ -122,9 +125,9 @@ def save_bundle(ctx, res, harness, obl, report):
     bd = os.path.join(VERIF, "replays", ctx.prop, "%s-%s-%d" % (res["program"], re.sub(r"[^A-Za-z0-9]+", "_", obl["label"])[:60], n))
     shutil.rmtree(bd, ignore_errors=True)
     os.makedirs(bd)
-    json.dump({"property": ctx.prop, "level": "G", "program": res["program"], "harness": harness, "label": obl["label"], "kind": obl["kind"],
+    json.dump({"property": ctx.prop, "level": "G", "variant": bool(res.get("is_variant")), "program": res["program"], "harness": harness, "label": obl["label"], "kind": obl["kind"],
                "model": obl.get("model"), "native_report": report, "bounds": res.get("bounds"),
-               "families": PROPS[ctx.prop]["G"]["families"]}, open(os.path.join(bd, "replay.json"), "w"), indent=1)
+               "families": PROPS[ctx.prop].get("G", {}).get("families", [])}, open(os.path.join(bd, "replay.json"), "w"), indent=1)
     gen = res["info"].get("generated_file")
     if gen and os.path.exists(gen):
         shutil.copy(gen, os.path.join(bd, "generated_terraform.go.txt"))
@@ -290,10 +293,14 @@ def do_replay(prop, path):
     if info.get("level") == "K":
         import klevel
         return klevel.replay_bundle(ctx, info)
-    d = os.path.join(ctx.work, info["program"])
+    d = os.path.join(ctx.work, re.sub(r"[^A-Za-z0-9_-]+", "_", info["program"]))
     b = info.get("bounds") or {}
-    p = sh([os.path.join(VERIF, "bin/corpus"), "build", "-program", info["program"], "-plugin", ctx.plugin, "-out", d,
-            "-kl", str(b.get("KL", 2)), "-km", str(b.get("KM", 2)), "-families", ",".join(info["families"])], timeout=600)
+    if info.get("variant"):
+        p = sh([os.path.join(VERIF, "bin/corpus"), "build", "-variant", info["program"], "-plugin", ctx.plugin, "-out", d,
+                "-kl", str(b.get("KL", 2)), "-km", str(b.get("KM", 2))], timeout=600)
+    else:
+        p = sh([os.path.join(VERIF, "bin/corpus"), "build", "-program", info["program"], "-plugin", ctx.plugin, "-out", d,
+                "-kl", str(b.get("KL", 2)), "-km", str(b.get("KM", 2)), "-families", ",".join(info["families"])], timeout=600)
     res = {"dir": d, "program": info["program"], "info": json.loads(p.stdout.decode())}
     rep = replay(ctx, res, info["harness"], info.get("model"))
     print(json.dumps(rep))
@@ -333,7 +340,8 @@ def main():
         plist = json.loads(sh([os.path.join(VERIF, "bin/corpus"), "list", "-tier", a.tier]).stdout.decode())
         progs = [p for p in plist if any(f in p["families"] for f in g["families"])]
         if g.get("programs"):
-            progs = [p for p in progs if re.search(g["programs"], p["name"])]
+            pat = g["programs"][a.tier] if isinstance(g["programs"], dict) else g["programs"]
+            progs = [p for p in progs if re.search(pat, p["name"])]
         if a.programs:
             want = a.programs.split(",")
             progs = [p for p in plist if p["name"] in want]
@@ -346,6 +354,23 @@ def main():
                     results.append({"program": "?", "error": str(e)})
         for r in results:
             judge(ctx, g, r)
+    if "V" in spec and a.only in ("", "V"):
+        v = spec["V"]
+        vlist = json.loads(sh([os.path.join(VERIF, "bin/corpus"), "variants", "-tier", a.tier, "-prop", a.prop]).stdout.decode()) or []
+        if a.programs:
+            vlist = [x for x in vlist if x["name"] in a.programs.split(",")]
+        vres = []
+        with cf.ThreadPoolExecutor(max_workers=int(os.environ.get("VERIF_JOBS", "5"))) as ex:
+            futs = [ex.submit(run_program, ctx, v, dict(x, variant=True)) for x in vlist]
+            for f in futs:
+                try:
+                    vres.append(f.result())
+                except Exception as e:
+                    vres.append({"program": "?", "error": str(e)})
+        for r in vres:
+            r["is_variant"] = True
+            judge(ctx, v, r)
+        results += vres
     if "K" in spec and a.only in ("", "K"):
         import klevel
         kres = klevel.run(ctx, spec["K"])
